@@ -488,8 +488,12 @@ class IndentationFeatures(object):
                 grad = np.gradient(y)
                 gz = np.abs(np.sum(grad[grad > 0]))
                 lz = np.abs(np.sum(grad[grad < 0]))
-                value = np.sum(indidx) * lz / gz
-                value = np.log(1 + value) / 10
+                if gz == 0:
+                    # no rising part at all (the ratio is not defined)
+                    value = np.nan
+                else:
+                    value = np.sum(indidx) * lz / gz
+                    value = np.log(1 + value) / 10
             else:
                 value = np.nan
         else:
